@@ -19,8 +19,11 @@ import (
 	"sync"
 	"time"
 
+	"github.com/AliceO2Group/Control/executor/executable"
+
 	"verif/harness/internal/c0203"
 	"verif/harness/internal/gen"
+	"verif/harness/internal/simcore"
 )
 
 // ---------------------------------------------------------------- case description
@@ -85,7 +88,7 @@ type result struct {
 
 func slow(oc []string) bool {
 	for _, o := range oc {
-		if o == "silent" || o == "dies" {
+		if o == "silent" || o == "dies" || o == "gone" {
 			return true
 		}
 	}
@@ -267,7 +270,8 @@ func runCaseOnce(w *c0203.World, idx int, try int, in Input) (obsOut []StepObs, 
 		env.Mark()
 		switch op.Kind {
 		case "cmd":
-			env.SetOutcomesFor(op.Ev, c0203.ParseOutcomes(op.Oc, len(in.Tasks)))
+			env.SetOutcomesFor(op.Ev, c0203.ParseOutcomes(simOutcomes(op.Oc), len(in.Tasks)))
+			registerGone(env, op.Oc)
 			h := 3 * time.Second
 			if slow(op.Oc) {
 				h = 140 * time.Second
@@ -275,6 +279,7 @@ func runCaseOnce(w *c0203.World, idx int, try int, in Input) (obsOut []StepObs, 
 			before := c0203.EnvStateCode[env.State()]
 			t1 := time.Now()
 			cr := env.Control(op.Ev, h)
+			registerGone(env, nil)
 			so.Hang = cr.Hang
 			so.Err = cr.Err != nil
 			if cr.Err != nil {
@@ -359,6 +364,63 @@ func runBystander(w *c0203.World, name string, n int) string {
 	return diag
 }
 
+// simOutcomes: what the simulated executors are told: a task that is gone is silent there, the answer
+// (if any) comes from the real executor message handler.
+func simOutcomes(oc []string) []string {
+	out := make([]string, len(oc))
+	for i, o := range oc {
+		if o == "gone" {
+			o = "silent"
+		}
+		out[i] = o
+	}
+	return out
+}
+
+var (
+	goneMu  sync.Mutex
+	goneIds = map[string]bool{} // task ids whose next transition command goes to the real executor handler
+)
+
+func registerGone(env *c0203.Env, oc []string) {
+	goneMu.Lock()
+	defer goneMu.Unlock()
+	goneIds = map[string]bool{}
+	for i, o := range oc {
+		if o == "gone" && i < len(env.TaskIds) && env.TaskIds[i] != "" {
+			goneIds[env.TaskIds[i]] = true
+		}
+	}
+}
+
+// installRealExecutor: every transition command for a task registered as gone is also given to the
+// real executor message handler, in an executor that runs no such task; its answers go to the core.
+func installRealExecutor(w *c0203.World) {
+	w.Sim.OnMsg = func(m *simcore.MsgRecord) {
+		if m == nil || m.Name != "MesosCommand_Transition" {
+			return
+		}
+		goneMu.Lock()
+		hit := false
+		for _, tid := range m.TaskIds {
+			if goneIds[tid] {
+				hit = true
+				delete(goneIds, tid) // once: the command the harness requested
+			}
+		}
+		goneMu.Unlock()
+		if !hit {
+			return
+		}
+		raw, agent, ex := append([]byte(nil), m.Raw...), m.AgentId, m.ExecutorId
+		go func() {
+			for _, data := range realExecutorAnswers(map[string]executable.Task{}, raw, 300*time.Millisecond) {
+				w.Sim.ExecutorMessage(agent, ex, data)
+			}
+		}()
+	}
+}
+
 func sameView(a, b [][2]int) bool {
 	if len(a) != len(b) {
 		return false
@@ -409,7 +471,13 @@ func waitFor(d time.Duration, f func() bool) bool {
 
 var modeTerm = map[string]string{"basic": "Basic", "direct": "Direct", "fairmq": "Fairmq"}
 var launchTerm = map[string]string{"run": "LRun", "": "LRun", "fail": "LFail", "silent": "LSilent", "nooffer": "LNoOffer", "nores": "LNoRes"}
-var outTerm = map[string]string{"ack": "Ack", "": "Ack", "errsrc": "ErrSrc", "errerr": "ErrErr", "sendfail": "SendFail", "silent": "Silent", "dies": "Dies"}
+var outTerm = map[string]string{"ack": "Ack", "": "Ack", "errsrc": "ErrSrc", "errerr": "ErrErr", "sendfail": "SendFail", "silent": "Silent", "dies": "Dies",
+	// gone: the task's process has died and the executor, which outlives its tasks, no longer runs it,
+	// while its TASK_FAILED update has not reached the core: the command is handed to the REAL executor
+	// message handler (executor.VerifC02HandleMessage, no such task among its active tasks) and whatever
+	// it answers is delivered to the core.  For the model that is silence: a faithful executor does not
+	// answer for a task it does not run (gen/Gen_ExecutorReplies.v), the core times out.
+	"gone": "Silent"}
 
 func mapList(xs []string, m map[string]string) string {
 	items := make([]string, len(xs))
@@ -493,7 +561,7 @@ func acks(n int) []string {
 // failure kinds available in a tier: silence and death cost the coded 90/120 s response timeout
 func failKinds(thorough bool) []string {
 	if thorough {
-		return []string{"errsrc", "errerr", "sendfail", "errsrc", "errerr", "sendfail", "silent", "dies"}
+		return []string{"errsrc", "errerr", "sendfail", "errsrc", "errerr", "sendfail", "silent", "dies", "gone"}
 	}
 	return []string{"errsrc", "errerr", "sendfail"}
 }
@@ -597,7 +665,7 @@ func genCase(r *gen.Rand, thorough bool, allowSlow bool) (Input, string) {
 		kind = "notasks"
 	}
 	if !deployFails && n > 0 && r.Chance(1, 4) {
-		in.Cfg = genOutcomes(r, in.Tasks, alive, kinds)
+		in.Cfg = simOutcomes(genOutcomes(r, in.Tasks, alive, kinds)) // (the CONFIGURE of the creation has no "gone")
 	}
 	// model-independent stop rule for the walk: it ends when a request is scripted to fail (the
 	// harness stops anyway when the environment is in ERROR)
@@ -817,6 +885,24 @@ func corpus() []job {
 	return js
 }
 
+// corpusSlow: cases that cost the coded 90 s / 120 s response time-out on a correct tree (thorough tier
+// and the driver's extended search only): a command reaches the executor of a critical task that is
+// gone - the real executor message handler decides what the core hears
+func corpusSlow() []job {
+	t := func(crit bool, mode string, host int) c0203.Task {
+		return c0203.Task{Crit: crit, Mode: mode, Host: host}
+	}
+	var js []job
+	add := func(kind string, in Input) { js = append(js, job{Kind: kind, In: in}) }
+	add("corpus-gone-critical-start", Input{Tasks: []c0203.Task{t(true, "direct", 1), t(false, "basic", 2)}, Launch: []string{"run", "run"}, Cfg: []string{"ack", "ack"},
+		Ops: []Op{{Kind: "cmd", Ev: "START", Oc: []string{"gone", "ack"}}}})
+	add("corpus-gone-single-critical-reset", Input{Tasks: []c0203.Task{t(true, "fairmq", 3)}, Launch: []string{"run"}, Cfg: []string{"ack"},
+		Ops: []Op{{Kind: "cmd", Ev: "RESET", Oc: []string{"gone"}}}})
+	add("corpus-gone-critical-stop", Input{Tasks: []c0203.Task{t(false, "direct", 1), t(true, "basic", 2), t(true, "fairmq", 3)}, Launch: []string{"run", "run", "run"}, Cfg: []string{"ack", "ack", "ack"},
+		Ops: []Op{{Kind: "cmd", Ev: "START", Oc: []string{"ack", "ack", "ack"}}, {Kind: "cmd", Ev: "STOP", Oc: []string{"gone", "ack", "gone"}}}})
+	return js
+}
+
 // ---------------------------------------------------------------- workers
 
 func buildDir() string {
@@ -847,6 +933,7 @@ func childMain(inFile, outFile string, wid int) {
 		fmt.Fprintln(os.Stderr, err)
 		os.Exit(2)
 	}
+	installRealExecutor(w)
 	enc := json.NewEncoder(f)
 	// warm-up: one small environment through every transition before the first case (first use of the
 	// core's lazily initialised parts, template and class caches, the simulated master's first offers)
@@ -948,7 +1035,11 @@ func runWorkers(o gen.Opts, jobs []job, workers int) map[int][]StepObs {
 
 func main() {
 	if len(os.Args) == 3 && os.Args[1] == "-gen" {
-		genFilteredPure(os.Args[2])
+		if strings.Contains(os.Args[2], "ExecutorReplies") {
+			genExecutorReplies(os.Args[2])
+		} else {
+			genFilteredPure(os.Args[2])
+		}
 		return
 	}
 	child := flag.String("child", "", "worker mode: file with the jobs")
@@ -976,6 +1067,12 @@ func main() {
 		}
 	} else {
 		jobs = corpus()
+		// the driver's extended search after a proof or the correspondence broke (quick tier, 16 shards)
+		// may spend the coded response time-outs, like the thorough tier
+		searchMode := !thorough && o.Shards >= 16
+		if thorough || searchMode {
+			jobs = append(jobs, corpusSlow()...)
+		}
 		r := gen.NewRand(o.Seed)
 		rWalk, rFew := r.Fork(), r.Fork()
 		slowBudget := 0
